@@ -82,7 +82,13 @@ class EuropeanForwardStartOption(BaseDerivative):
         return ", ".join(params)
 
     def _start_index(self) -> int:
-        return floor(self.start / self.ul().dt)
+        # A quotient that is an integer up to floating point rounding counts as
+        # that integer: (43 / 250) / (1 / 250) evaluates to 42.99999999999999.
+        ratio = self.start / self.ul().dt
+        nearest = round(ratio)
+        if abs(ratio - nearest) <= 1e-10 * max(abs(nearest), 1):
+            return int(nearest)
+        return floor(ratio)
 
     def payoff_fn(self) -> Tensor:
         return european_forward_start_payoff(
